@@ -358,10 +358,33 @@ func runC11(c *ctx, r *Report) error {
 	if !c.quick {
 		nV = 6000
 	}
-	return visitTie(c, r, nV, false, func(cs Case) (string, string) {
+	if err := visitTie(c, r, nV, false, func(cs Case) (string, string) {
 		if a, b := visitCodes(cs.Impl, "untrusted"), visitCodes(cs.Model, "untrusted"); a != b {
 			return "workflow-untrusted-reports-differ", "the untrusted-input reports at the probes (" + a + ") differ from the rule (script positions only, documented paths): " + b
 		}
 		return "", ""
-	})
+	}); err != nil {
+		return err
+	}
+	// the whole rule over the parser's AST (AL.RuleExpr, tie `exprwf`): untrusted inputs planted at EVERY scalar of the base
+	// workflows and the corpus — reported in `run:` and github-script `script:` only
+	perE := 6
+	if !c.quick {
+		perE = 200
+	}
+	return exStandard(c, r, func(cs Case) (string, string) {
+		pick := func(s string) string {
+			var out []string
+			for _, d := range strings.Split(s, ";") {
+				if strings.HasPrefix(d, "untrusted(") {
+					out = append(out, d)
+				}
+			}
+			return strings.Join(out, ";")
+		}
+		if pick(cs.Impl) != pick(cs.Model) {
+			return "untrusted-reports-differ-from-rule-model", "the untrusted-input reports of the real rule differ from the model of rule_expression.go (script positions only) on this source"
+		}
+		return "", ""
+	}, perE, true, map[bool]int{true: 2500, false: 0}[c.quick])
 }
